@@ -4,6 +4,8 @@
 # change (debug or release) and passes without it (debug and release). Prints one summary line.
 set -u
 d=$(realpath $1); crate=${2:-indextree}
+# optional: FLAGS="--features deser" (cargo flags for the demo), EXTRA_PATCH=<file> (applied in both runs, e.g. a dev-dependency for the demo)
+FLAGS=${FLAGS:-}; EXTRA_PATCH=${EXTRA_PATCH:-}
 wt=/tmp/confirm-wt-$$
 export CARGO_TARGET_DIR=/tmp/confirm-target
 git -C /repo worktree add -q --detach $wt HEAD || exit 3
@@ -12,13 +14,16 @@ trap cleanup EXIT
 cd $wt
 git apply --check $d/patch.diff 2>/dev/null || { echo "RESULT $d: PATCH-DOES-NOT-APPLY"; exit 1; }
 git apply $d/patch.diff
+if [ -n "$EXTRA_PATCH" ]; then git apply $EXTRA_PATCH || { echo "RESULT $d: EXTRA-PATCH-DOES-NOT-APPLY"; exit 1; }; fi
+if [ -n "$EXTRA_PATCH" ]; then git apply -R $EXTRA_PATCH; fi
 suite=$(cargo test --workspace --offline 2>&1); src=$?
+if [ -n "$EXTRA_PATCH" ]; then git apply $EXTRA_PATCH; fi
 cp $d/demo.rs $crate/tests/demo_mutant.rs
-(cd $crate && cargo test --offline --test demo_mutant >/tmp/confirm-$$-d1 2>&1); d1=$?
-(cd $crate && timeout 600 cargo test --offline --release --test demo_mutant >/tmp/confirm-$$-r1 2>&1); r1=$?
+(cd $crate && cargo test --offline $FLAGS --test demo_mutant >/tmp/confirm-$$-d1 2>&1); d1=$?
+(cd $crate && timeout 600 cargo test --offline $FLAGS --release --test demo_mutant >/tmp/confirm-$$-r1 2>&1); r1=$?
 git apply -R $d/patch.diff
-(cd $crate && cargo test --offline --test demo_mutant >/tmp/confirm-$$-d0 2>&1); d0=$?
-(cd $crate && cargo test --offline --release --test demo_mutant >/tmp/confirm-$$-r0 2>&1); r0=$?
+(cd $crate && cargo test --offline $FLAGS --test demo_mutant >/tmp/confirm-$$-d0 2>&1); d0=$?
+(cd $crate && cargo test --offline $FLAGS --release --test demo_mutant >/tmp/confirm-$$-r0 2>&1); r0=$?
 ok=BAD
 if [ $src -eq 0 ] && { [ $d1 -ne 0 ] || [ $r1 -ne 0 ]; } && [ $d0 -eq 0 ] && [ $r0 -eq 0 ]; then ok=CONFIRMED; fi
 echo "RESULT $d: $ok suite_with_change=$src demo_with_change(debug,release)=$d1,$r1 demo_without(debug,release)=$d0,$r0"
